@@ -391,11 +391,100 @@ pub fn antiamp(trace: &[Value]) -> Vec<Value> {
     out
 }
 
+/// The part of the connection state an unauthenticated or duplicate datagram must not change.
+/// Excluded on purpose: byte/datagram counters, authentication failure counter, the path's
+/// received-byte credit, LossDetection / Pacing / KeyDiscard / MaxAckDelay timers.
+fn auth_digest(p: &Value) -> Value {
+    let sp: Vec<Value> = p["sp"]
+        .as_array()
+        .map(|a| {
+            a.iter()
+                .map(|s| json!([s["keys"], s["next"], s["lack"], s["rx"], s["dd"], s["nsent"], s["coff"], s["cread"], s["pcrypto"], s["pretire"]]))
+                .collect()
+        })
+        .unwrap_or_default();
+    json!({"st":p["st"],"err":p["err"],"hs":p["hs"],"sp":sp,"kp":p["kp"],
+        "prevk":p["prevk"],"zk":p["zk"],"streams":p["streams"],"dgi":p["dgi"],"dgo":p["dgo"],
+        "rcid":p["rcid"],"lcids":p["lcids"],"rem":p["path"]["rem"],"val":p["path"]["val"],
+        "gen":p["path"]["gen"],"idle_tm":p["tm"][1],"close_tm":p["tm"][2],"ka_tm":p["tm"][5],
+        "nev":p["nev"]})
+}
+
+/// C04: one history per connection
+pub fn auth(trace: &[Value]) -> Vec<Value> {
+    let run = trace[0]["run"].clone();
+    let mut out = Vec::new();
+    let mut lines: std::collections::BTreeMap<(i64, i64), Vec<Value>> = Default::default();
+    let mut first_ipk: Value = json!([]);
+    let mut first_cls: Value = json!("gen");
+    for e in trace {
+        let ev = e["ev"].as_str().unwrap_or("");
+        match ev {
+            "Connect" | "Accept" if e["ok"] == true => {
+                let n = e["n"].as_i64().unwrap();
+                let c = e["c"].as_i64().unwrap();
+                let v = lines.entry((n, c)).or_default();
+                v.clear();
+                v.push(json!({"ev":"Reset","run":run,"n":n,"c":c}));
+                if ev == "Accept" {
+                    // the connection-creating datagram is processed inside accept()
+                    let dfr: Vec<Value> = e["dfr"]
+                        .as_array()
+                        .map(|a| a.iter().enumerate().filter(|(_, x)| x.as_i64().unwrap_or(0) > 0)
+                            .map(|(i, x)| json!([i + 1, x])).collect())
+                        .unwrap_or_default();
+                    v.push(json!({"ev":"Rx","kind":"data","cls":first_cls,"ipk":first_ipk,"dfr":dfr,
+                        "authed":e["post"]["authed"],"same":false,"stchange":false,"preauthed":0,
+                        "id":-1,"t":e["t"]}));
+                }
+            }
+            "Rx" if e["kind"] == "new" => {
+                first_ipk = e["ipk"].clone();
+                first_cls = e["cls"].clone();
+            }
+            "Rx" if e["kind"] == "conn" => {
+                let n = e["n"].as_i64().unwrap();
+                let c = e["c"].as_i64().unwrap();
+                let pre = &e["pre"];
+                let post = &e["post"];
+                let dfr: Vec<Value> = e["dfr"]
+                    .as_array()
+                    .map(|a| a.iter().enumerate().filter(|(_, x)| x.as_i64().unwrap_or(0) > 0)
+                        .map(|(i, x)| json!([i + 1, x])).collect())
+                    .unwrap_or_default();
+                let ipk = e["ipk"].as_array().cloned().unwrap_or_default();
+                let kind = if e["rtok"] == "exact" || e["rtok"] == "maybe" {
+                    "reset"
+                } else if e["otypes"].as_str().unwrap_or("").contains('R') {
+                    "retry"
+                } else if e["otypes"].as_str().unwrap_or("").contains('V') || e["cls"].as_str().unwrap_or("").starts_with("vn") {
+                    "vn"
+                } else {
+                    "data"
+                };
+                let same = auth_digest(pre) == auth_digest(post);
+                if let Some(v) = lines.get_mut(&(n, c)) {
+                    v.push(json!({"ev":"Rx","kind":kind,"cls":e["cls"],"ipk":ipk,"dfr":dfr,
+                        "authed":post["authed"].as_i64().unwrap_or(0) - pre["authed"].as_i64().unwrap_or(0),
+                        "same":same,"stchange":pre["st"] != post["st"],"preauthed":pre["authed"],
+                        "id":e["id"],"t":e["t"]}));
+                }
+            }
+            _ => {}
+        }
+    }
+    for (_, v) in lines {
+        out.extend(v);
+    }
+    out
+}
+
 pub fn project(name: &str, trace: &[Value]) -> Vec<Value> {
     match name {
         "lifecycle" => lifecycle(trace),
         "streamdata" => streamdata(trace),
         "antiamp" => antiamp(trace),
+        "auth" => auth(trace),
         "master" => trace.to_vec(),
         o => panic!("unknown projection {o}"),
     }
